@@ -735,7 +735,7 @@ HAND_MADE = [
 ]
 
 
-BLOCK_SHAPES = [[], [2], [1, 2]]
+BLOCK_SHAPES = [[], [2], [1, 2], [2, 2]]
 NAMES = ["X", "Y", "Z"]
 
 
@@ -940,7 +940,7 @@ def run_bounded(ctx: Ctx) -> Report:
         "pt_solve": "n in 1..4, every index type of size n (atomic, sums, 2x2 product), every conforming pattern of a from "
                     "patterns_for_shape((n,n)) x seeded conforming b of shape (n,), (n,2), (n,1), (n,1,2); defaults zero / non-zero; "
                     "4 semirings; entries by regime",
-        "multi_solve": three + "; block shapes from {(), (2,), (1,2)}; blocks = seeded well-typed patterns; entries by regime; "
+        "multi_solve": three + "; block shapes from {(), (2,), (1,2), (2,2)}; blocks = seeded well-typed patterns; entries by regime; "
                        "4 semirings x transpose; arguments snapshot before/after",
         "multi_mv": three + "; same blocks; 4 semirings x transpose; arguments snapshot before/after",
     }
